@@ -4,3 +4,5 @@ void vf_arm (int k, int mode) { (void)k; (void)mode; }
 void vf_disarm (void) {}
 void vf_log (int on) { (void)on; }
 void vf_pause (int on) { (void)on; }
+void vf_begin (void) {}
+void vf_end (void) {}
